@@ -407,7 +407,7 @@ def merger_spec(draw):
 def parts():
     return [
         Part("static", check_static, strategy=static_case(), budget={"quick": 1500, "thorough": 30000}),
-        Part("pullbased", check_pullbased, strategy=pullbased_spec(), budget={"quick": 700, "thorough": 40000}),
+        Part("pullbased", check_pullbased, strategy=pullbased_spec(), budget={"quick": 700, "thorough": 40000}, fuzz={"thorough": 5000}),
         Part("fanout_enum", check_fanout, enumerate=enum_fanout, exhaustive=True),
         Part("merger", check_merger, strategy=merger_spec(), budget={"quick": 500, "thorough": 20000}),
     ]
